@@ -111,7 +111,7 @@ def run(idx, rep, tier):
         if init is None or init.node.args.vararg is None:
             continue
         va = init.node.args.vararg.arg
-        sup = [c for c in df.calls(init.node) if isinstance(c.func, ast.Attribute) and c.func.attr == "__init__" and "super()" in ast.unparse(c.func.value)]
+        sup = [c for c in df.calls(init.node) if df.is_super_init(c)]
         if not sup:
             continue
         b = df.bind_call(sup[0], ["dtype", "shape", "matmat", "annotations"])
